@@ -197,7 +197,7 @@ BaseConfigs ==
     scratch |-> 0, reads |-> <<>>, leaf |-> TRUE] :
      abi \in GenAbis, c \in UNION {SubSeqs(ClobUniverse(x)) : x \in GenAbis},
      f \in BOOLEAN, al \in BOOLEAN, p \in BOOLEAN}
-Leafs(abi) == IF Wide \/ abi = "x64elf" THEN BOOLEAN ELSE {TRUE}
+Leafs(abi) == IF abi = "x64elf" \/ (Wide /\ abi = "x64pe") THEN BOOLEAN ELSE {TRUE}
 
 (***************************************************************************)
 (* Composition: choose a configuration and a start alignment, execute the  *)
@@ -206,8 +206,13 @@ Leafs(abi) == IF Wide \/ abi = "x64elf" THEN BOOLEAN ELSE {TRUE}
 VARIABLES cfg, pred, prog, pc
 vars == <<cfg, pred, prog, pc, mvars>>
 
-NoPred == [exc |-> "", pro |-> <<>>, epi |-> <<>>, adjknown |-> TRUE, adj |-> 0,
-           scratch |-> <<>>]
+\* what the invariants need to know about the prediction
+Meta(p) == [exc |-> p.exc, scratch |-> p.scratch]
+NoPred == [exc |-> "", scratch |-> <<>>]
+\* Without align_stack no event depends on the value of sp (no `and'): the
+\* machine is invariant under translation and one start alignment suffices.
+RelevantAligns(abi, align) ==
+  IF align THEN StartAligns(abi) ELSE {CHOOSE a \in StartAligns(abi) : \A b \in StartAligns(abi) : a <= b}
 Program(p) == IF p.exc # "" THEN <<>>
               ELSE p.pro \o <<E0("bodyentry"), E0("havoc"), E0("bodyexit")>> \o p.epi \o <<E0("end")>>
 
@@ -222,15 +227,15 @@ Init ==
 Load ==
   /\ pc = 0
   /\ \E n \in ScratchVals, rd \in ReadChoices(cfg.abi), lf \in Leafs(cfg.abi),
-        a \in StartAligns(cfg.abi) :
+        a \in RelevantAligns(cfg.abi, cfg.align) :
         \E c \in {[cfg EXCEPT !.scratch = n, !.reads = rd, !.leaf = lf]} :
         \E p \in {Predict(c)} :
             /\ cfg' = c
-            /\ pred' = p
+            /\ pred' = Meta(p)
             /\ prog' = Program(p)
             /\ pc' = 1
             /\ MLoad(ParamsC16(c, a, p.scratch, p.adjknown, p.adj))
-            /\ (Emit /\ \A b \in StartAligns(c.abi) : a <= b) => PrintT("CASE " \o ToJson(c))
+            /\ (Emit /\ \A b \in RelevantAligns(c.abi, c.align) : a <= b) => PrintT("CASE " \o ToJson(c))
 
 Step ==
   /\ pc >= 1 /\ pc <= Len(prog)
